@@ -411,11 +411,21 @@ def run(chk: Check) -> None:
     # Max-Age=0 next to exactly the attributes passed on
     for (k, v, dom, exp, ma, sec, ho, path, ss, part) in attr_cases[: 400 if quick else 5000]:
         kw = dict(max_age=ma, expires=exp, path=path, domain=dom, secure=sec, httponly=ho, samesite=ss, partitioned=part)
+        t_glue = _dt.datetime.now(tz=_dt.timezone.utc).timestamp()
         try:
             r = Response()
             r.set_cookie(k, v, **kw)
             got = r.headers.getlist("Set-Cookie")
             want = [whttp.dump_cookie(k, v, max_size=r.max_cookie_size, **kw)]
+            if exp is None and ma is not None:
+                # Expires is synthesised from the clock (sync_expires): the two calls may straddle a second, so its
+                # value is compared as an instant (bracketed by the clock around both calls), the rest textually
+                t1 = _dt.datetime.now(tz=_dt.timezone.utc).timestamp()
+                ex = _re.compile(r"Expires=([^;]*)")
+                inst = [whttp.parse_date(m.group(1)) for h in got + want for m in [ex.search(h)] if m]
+                if len(inst) == 2 and all(d is not None and t_glue - 1 + ma <= d.timestamp() <= t1 + 1 + ma for d in inst):
+                    got = [ex.sub("Expires=<now+max_age>", h) for h in got]
+                    want = [ex.sub("Expires=<now+max_age>", h) for h in want]
         except Exception as e:  # noqa: BLE001
             got, want = "exn:" + type(e).__name__, None
             try:
